@@ -181,6 +181,18 @@ def _run(ctx, w):
                 sc = repr(c)
                 if R["active_buffer_type"] in sc and "eq" in sc and want in sc and v is True:
                     ok = True
+            if not ok:
+                # a guard of another shape (early return on `!=`, matches!, ...): the per-mode decision table (P14) evaluates every switching mode
+                # from BOTH screens and demands that nothing changes from the wrong one
+                from rules import hinterp as _hi
+                c_ = getattr(w.facts, "_mode_verdict", None)
+                if c_ is None:
+                    try:
+                        c_ = _hi.mode_semantics(w, S, R)
+                    except Exception as ex_:
+                        c_ = ([("evaluation", repr(ex_))], 0)
+                    w.facts._mode_verdict = c_
+                ok = not c_[0] and c_[1] >= 200
             ctx.check(ok, "P6", f + ":guard", "%s swaps the buffers without having established that the active screen is the %s one (guards: %s): a second enter/leave would swap twice" % (f, want.lower(), [(w.tstr(f, c), v) for c, v in gs]),
                       loc=w.site_loc(cs), sample={"fn": f, "guards": [(w.tstr(f, c), v) for c, v in gs]})
     if enter:
